@@ -38,7 +38,7 @@ def timeout(tier):
 def floors(tier):
     return {"calls": 20000, "returned": 2000, "raised_expected": 5000, "class.chars": 500, "class.tokens": 500,
             "class.legacy": 300, "class.digits": 100, "class.deep": 50, "class.long": 30, "class.mutated": 300,
-            "flags.compatible": 5000, "flags.attribute": 5000, "steps": 1000000}
+            "flags.compatible": 5000, "flags.attribute": 5000, "steps": 1000000, "atheris.executions": 100000}
 
 
 def nesting_depth(x):
@@ -113,8 +113,7 @@ def run(ctx):
     except AbortWorkload as e:
         ctx.count("workload_aborted_after_step_bound_violations")
     T.close()
-    if not quick:
-        atheris_campaign(ctx, "decoder", runs=150000)
+    atheris_campaign(ctx, "decoder", runs=20000 if quick else 300000)
     for k, v in MON.counts.items():
         ctx.count(k, v)
 
@@ -132,15 +131,16 @@ def atheris_campaign(ctx, which, runs):
         return
     import json
     n_exec = 0
+    if os.path.exists(out + ".stats"):
+        rec = json.load(open(out + ".stats"))
+        n_exec = rec["executions"]
+        ctx.count("atheris.executions", rec["executions"])
+        ctx.count("atheris.returned", rec["returned"])
+        ctx.count("atheris.raised_expected", rec["raised_expected"])
     if os.path.exists(out):
         for line in open(out):
             rec = json.loads(line)
-            if rec.get("kind") == "stats":
-                n_exec = rec["executions"]
-                ctx.count("atheris.executions", rec["executions"])
-                ctx.count("atheris.returned", rec["returned"])
-                ctx.count("atheris.raised_expected", rec["raised_expected"])
-            elif rec.get("kind") == "escape":
+            if rec.get("kind") == "escape":
                 ctx.finding("escape:%s" % rec["mech"], {"input": rec["input"], "flags": rec["flags"], "class": "atheris"}, rec["mech"])
     if n_exec == 0:
         ctx.inconclusive_reason("atheris campaign produced no executions: %s" % (p.stderr[-300:],))
